@@ -352,6 +352,16 @@ func prefillFanout(src sim.Source, w *world.World, set *model.Set, cfg world.Cfg
 			}
 		}
 	}
+	// the two routes with more than 256 parameters
+	for _, raw := range world.ManyParamPatterns() {
+		for i, p := range pool {
+			if p.Raw == raw {
+				if msg, ok := reg(i); !ok {
+					return msg, false
+				}
+			}
+		}
+	}
 	// the ladder, in a drawn registration order (deepest first, shallowest first, or as the pool has it)
 	var ladder []int
 	for _, raw := range world.LadderPatterns {
